@@ -113,6 +113,8 @@ func (w *Worker) rtIntrinsic(name string, args []Val) (Val, bool) {
 		w.deadlockID = old
 		w.traces = append(w.traces, traceTerm{"assert:" + id, ts.True})
 		return ts.True, true
+	case "vRetryStop":
+		return nil, true
 	case "vRetry":
 		// vRetry(n, f): the engine forks over scheduling choices itself, so f runs once
 		f := args[1].(*Closure)
